@@ -6,8 +6,8 @@ package main
 // whether written as assignments or as composite-literal fields.
 
 import (
-	"fmt"
 	"bytes"
+	"fmt"
 	"go/ast"
 	"go/printer"
 	"go/token"
@@ -23,11 +23,11 @@ type copyFact struct {
 }
 
 var trackedTypes = map[string]string{
-	"github.com/hashicorp/raft.Log":                                 "raft.Log",
-	"github.com/robustirc/robustirc/internal/proto.RaftLog":         "pb.RaftLog",
-	"github.com/robustirc/robustirc/internal/robust.Message":        "robust.Message",
-	"github.com/robustirc/robustirc/internal/proto.RobustMessage":   "pb.RobustMessage",
-	"github.com/robustirc/robustirc/internal/outputstream.Message":  "outputstream.Message",
+	"github.com/hashicorp/raft.Log":                                  "raft.Log",
+	"github.com/robustirc/robustirc/internal/proto.RaftLog":          "pb.RaftLog",
+	"github.com/robustirc/robustirc/internal/robust.Message":         "robust.Message",
+	"github.com/robustirc/robustirc/internal/proto.RobustMessage":    "pb.RobustMessage",
+	"github.com/robustirc/robustirc/internal/outputstream.Message":   "outputstream.Message",
 	"github.com/robustirc/robustirc/internal/proto.Snapshot_Session": "pb.Session",
 }
 
@@ -102,6 +102,40 @@ func unwrap(info *types.Info, e ast.Expr) (ast.Expr, string) {
 	}
 }
 
+// copyPkg is the package whose functions are being scanned (set by genCopies): a field value that is a call of a
+// same-package helper consisting of `return &T{...}` is read as that literal, with the helper's parameters standing
+// for the arguments (`Id: idToProto(m.Id)` copies Id.Id and Id.Reply like the literal it replaced)
+var copyPkg *packages.Package
+
+type srcRef struct{ T, Path string }
+
+func selectorPathEnv(info *types.Info, e ast.Expr, env map[types.Object]srcRef) (string, string, bool) {
+	if len(env) > 0 {
+		var parts []string
+		x := e
+		for {
+			switch v := x.(type) {
+			case *ast.ParenExpr:
+				x = v.X
+				continue
+			case *ast.StarExpr:
+				x = v.X
+				continue
+			case *ast.SelectorExpr:
+				parts = append([]string{v.Sel.Name}, parts...)
+				x = v.X
+				continue
+			case *ast.Ident:
+				if r, ok := env[info.ObjectOf(v)]; ok {
+					return r.T, strings.Join(append([]string{r.Path}, parts...), "."), true
+				}
+			}
+			break
+		}
+	}
+	return selectorPath(info, e)
+}
+
 func collectCopies(info *types.Info, body ast.Node) []copyFact {
 	seen := map[copyFact]bool{}
 	var out []copyFact
@@ -111,8 +145,8 @@ func collectCopies(info *types.Info, body ast.Node) []copyFact {
 			out = append(out, c)
 		}
 	}
-	var lit func(rootT, prefix string, cl *ast.CompositeLit)
-	lit = func(rootT, prefix string, cl *ast.CompositeLit) {
+	var lit func(rootT, prefix string, cl *ast.CompositeLit, env map[types.Object]srcRef)
+	lit = func(rootT, prefix string, cl *ast.CompositeLit, env map[types.Object]srcRef) {
 		for _, el := range cl.Elts {
 			kv, ok := el.(*ast.KeyValueExpr)
 			if !ok {
@@ -131,11 +165,37 @@ func collectCopies(info *types.Info, body ast.Node) []copyFact {
 				val = u.X
 			}
 			if inner, ok := val.(*ast.CompositeLit); ok {
-				lit(rootT, path, inner)
+				lit(rootT, path, inner, env)
 				continue
 			}
+			if call, ok := val.(*ast.CallExpr); ok && copyPkg != nil {
+				if cal := sameModuleCallee(copyPkg, call); cal != nil && cal.Body != nil && len(cal.Body.List) == 1 && cal.Recv == nil {
+					if ret, ok := cal.Body.List[0].(*ast.ReturnStmt); ok && len(ret.Results) == 1 {
+						rv := ret.Results[0]
+						if u, ok := rv.(*ast.UnaryExpr); ok && u.Op == token.AND {
+							rv = u.X
+						}
+						if inner, ok := rv.(*ast.CompositeLit); ok {
+							ne := map[types.Object]srcRef{}
+							k := 0
+							for _, f := range cal.Type.Params.List {
+								for _, n := range f.Names {
+									if k < len(call.Args) {
+										if st, sp, ok := selectorPathEnv(info, call.Args[k], env); ok {
+											ne[info.ObjectOf(n)] = srcRef{st, sp}
+										}
+									}
+									k++
+								}
+							}
+							lit(rootT, path, inner, ne)
+							continue
+						}
+					}
+				}
+			}
 			src, wrap := unwrap(info, kv.Value)
-			if st, sp, ok := selectorPath(info, src); ok {
+			if st, sp, ok := selectorPathEnv(info, src, env); ok {
 				add(copyFact{rootT, path, st, sp, wrap})
 			}
 		}
@@ -153,7 +213,7 @@ func collectCopies(info *types.Info, body ast.Node) []copyFact {
 			}
 		case *ast.CompositeLit:
 			if tn := trackedName(info.TypeOf(v)); tn != "" {
-				lit(tn, "", v)
+				lit(tn, "", v, nil)
 				return false
 			}
 		}
@@ -208,12 +268,35 @@ func (x *extractor) genCopies() {
 				if !ok || fd.Body == nil {
 					continue
 				}
+				copyPkg = p
 				facts := collectCopies(p.TypesInfo, fd.Body)
 				by := map[string][]copyFact{}
 				for _, c := range facts {
 					k := c.DstT + "<-" + c.SrcT
 					by[k] = append(by[k], c)
 				}
+				// a function that leaves the copying to a helper of its package copies what the helper copies
+				ast.Inspect(fd.Body, func(n ast.Node) bool {
+					call, ok := n.(*ast.CallExpr)
+					if !ok {
+						return true
+					}
+					cal := sameModuleCallee(p, call)
+					if cal == nil || cal == fd || cal.Body == nil || ast.IsExported(cal.Name.Name) {
+						return true
+					}
+					hb := map[string][]copyFact{}
+					for _, c := range collectCopies(p.TypesInfo, cal.Body) {
+						k := c.DstT + "<-" + c.SrcT
+						hb[k] = append(hb[k], c)
+					}
+					for k, fs := range hb {
+						if _, own := by[k]; !own {
+							by[k] = fs
+						}
+					}
+					return true
+				})
 				for k, fs := range by {
 					sort.Slice(fs, func(i, j int) bool {
 						return fmt.Sprint(fs[i]) < fmt.Sprint(fs[j])
